@@ -328,6 +328,36 @@ def h_tensor(ctx, N, d, m, full=False, point='float', scale=None):
                 ctx.eq(T[idx] / float(sc), ref / float(sc), 'T%s' % (list(idx),))
 
 
+def h_two_seeds(ctx, driver, mutate=False):
+    """two seeds of the same shape alive at the same time (x1 = init(p1); x2 = init(p2); then f(x1)):
+    every seed is an object of its own.  mutate: the first program updates its argument in place
+    (x *= 2) before a second, unrelated seed of the same shape is made."""
+    algopy = symx.load_algopy()
+    UTPM = algopy.UTPM
+    N = 2
+    mons, C = coeff_vars(ctx, 1, N, 3)
+    f = program(algopy, C, mons, 'scalar')
+    p1 = [ctx.var('p1_%d' % i) for i in range(N)]
+    p2 = [ctx.var('p2_%d' % i) for i in range(N)]
+    arr = lambda p: (npx.sarr(np.array(p, dtype=object), float) if ctx.mode == 'sym' else np.array(p, dtype=float))
+    flat = lambda a: np.asarray(plain(np.asarray(a, dtype=object)), dtype=object)
+    init = {'jacobian': UTPM.init_jacobian, 'hessian': UTPM.init_hessian}[driver]
+    ext = (lambda y: UTPM.extract_jacobian(y)) if driver == 'jacobian' else (lambda y: UTPM.extract_hessian(N, y))
+    alone1 = flat(ext(f(init(arr(p1))))).copy()
+    alone2 = flat(ext(f(init(arr(p2))))).copy()
+    x1 = init(arr(p1))
+    if mutate:
+        def g(x):
+            x *= 2.0
+            return f(x)
+        g(x1)
+    x2 = init(arr(p2))
+    if not mutate:
+        ctx.eq(flat(ext(f(x1))), alone1, '%s at p1 while a second seed at p2 exists == %s at p1 alone' % (driver, driver))
+    ctx.eq(flat(ext(f(x2))), alone2, '%s at p2 (second seed of the same shape) == %s at p2 alone' % (driver, driver))
+    ctx.fact(not np.shares_memory(np.asarray(x1.data), np.asarray(x2.data)), 'two seeds do not share memory')
+
+
 def h_tensor_valued(ctx, N, d, m, out='vector', full=False):
     """extract_tensor for vector- and matrix-valued programs: every output component gets the
     d-th order partial derivatives of that component (trailing axes = the program's result shape)"""
@@ -482,6 +512,12 @@ def units(tier, seed):
     for (N, d) in ([(1, 2), (2, 2), (2, 3), (3, 2), (2, 4)] if tier == 'quick' else
                    [(1, 2), (1, 3), (2, 2), (2, 3), (3, 2), (2, 4), (3, 3), (4, 2), (2, 5), (3, 4), (4, 3), (5, 2), (2, 6), (1, 6)]):
         add('tensor/N%d,d%d' % (N, d), 'h_tensor', o={'validate': False}, N=N, d=d, m=d + 1)
+    for drv in ('jacobian', 'hessian'):
+        add('%s/two seeds of the same shape alive at once' % drv, 'h_two_seeds', driver=drv)
+        add('%s/a program that updates its seed in place, then a second seed' % drv, 'h_two_seeds', driver=drv, mutate=True)
+    for full in (False, True):
+        add('tensor of a vector-valued program/N3,d1,%s' % ('full' if full else 'compact'), 'h_tensor_valued', N=3, d=1, m=2, out='vector', full=full)
+        add('tensor of a matrix-valued program/N2,d1,%s' % ('full' if full else 'compact'), 'h_tensor_valued', N=2, d=1, m=2, out='matrix', full=full)
     for outk in ('vector', 'matrix'):
         for full in (False, True):
             add('tensor of a %s-valued program/N2,d2,%s' % (outk, 'full' if full else 'compact'), 'h_tensor_valued', N=2, d=2, m=3, out=outk, full=full)
